@@ -36,3 +36,16 @@ claim("C11", "E3-isolate", "exhaustive enumeration of token sequences (reference
       "From 7 start states all token sequences up to depth 4 (LZ10) / 3-4 (LZ11, every length form incl. lengths mila never emits) over literal + reference(len, disp) are encoded by the reference encoder and decompressed through the 4 entry points; every strict prefix, every reference rewritten to before the start, every other type byte, all byte strings of length <= 2 and a 7-symbol alphabet up to length 5, and the stored form are required to behave as the statement says; panics are located, aborts/timeouts attributed by subprocess isolation.",
       "Trusted: ref_lz.rs encoder/decoder (self-checked against each other on every case). Inputs the statement does not classify (trailing bytes, LZ11 at the LZ10 entry, overshooting references) are only required not to panic.",
       "DESIGN.md §4 C11")
+
+claim("C01", "E2-enumerate", "bounded-exhaustive enumeration of archive contents x both endiannesses x every conforming layout, three independent oracles",
+      "Every archive over data lengths {0,1,3,4,5,8,9,12} (+13,16 thorough), every assignment of {raw pattern, pointer, string, c-string} to each cell, up to two labelled addresses incl. the end address and unaligned ones, both endiannesses (≈0.57M archives quick) is serialized and re-parsed by mila (content compared through the public API), its image validated by a strict reference parser, and the same content is fed to mila's parser in every layout of the conforming family written by the reference writer (≈33M parses quick).",
+      "Trusted: ref_bin.rs (content model, reference writer and strict parser written from the format description); encoding_rs as the Shift-JIS codec. Strings come from a small alphabet, data length ≤ 16.",
+      "DESIGN.md §4 C01")
+claim("C02", "E2-enumerate", "bounded-exhaustive enumeration of contents x ALL call orders x fresh instances, compared with the reference writer's canonical image",
+      "Every content of the C01 family without c-strings is built through every permutation of its annotation calls (≤5 calls quick / ≤6 thorough), each in several fresh BinArchive instances; all images must be one and the same and equal the canonical image produced by the independent reference writer; parse→serialize of every canonical image and of the fixture files must be the identity.",
+      "Trusted: ref_bin.rs canonical writer. The 'fresh hash states' sub-claim is sampled (R fresh instances per order, 64 for the tie cases) because std's HashMap seeds cannot be controlled; contents and call orders are exhaustive.",
+      "DESIGN.md §4 C02, §6")
+claim("C03", "E1-bfs", "explicit-state BFS over the real BinArchive API with a lock-step reference model and a rebuilt-from-scratch differential oracle",
+      "From 6 initial archives every history up to depth 4 (5 thorough) over ~150 operations per state (allocate/deallocate/truncate with aligned, misaligned, out-of-range and overflowing arguments, both inclusive flags, writer-side allocate, annotation writes/deletes) is executed on a real BinArchive rebuilt for every transition; after each call acceptance, every observable, the re-parsed serialized image (which exposes pending c-strings) and equality with the image of the same content built from scratch are compared with the model. States are de-duplicated on the full content.",
+      "Trusted: ref_bin.rs edit semantics (transcribed from the property statement). Archives above S_max=16/24 bytes are not expanded; the full alphabet is used below depth 3/4, relocation operations only at the last level.",
+      "DESIGN.md §4 C03")
